@@ -151,8 +151,8 @@ func (s *Solver) solve(name, query string, cover bool) SolveResult {
 		s.account(first)
 		if first.Status == "unsat" || first.Status == "sat" {
 			s.cachePut(h, first)
-			if first.Status == "unsat" || cover {
-				os.Remove(file)
+			if (first.Status == "unsat" && !cover) || (cover && first.Status != "unsat") {
+				os.Remove(file) // a refuted cover (vacuity alarm) keeps its query for diagnosis
 			}
 			return first
 		}
